@@ -116,9 +116,13 @@ class C04(Property):
         rng = ctx.rng
         n, k = self._plan(ctx)
         lines, metas = [], []
+        hangs = 0
         for i in range(n):
             if ctx.out_of_time():
                 ctx.extra["incomplete"] = True
+                break
+            if hangs >= 4:
+                ctx.notes.append("stopped generating after 4 hanging runs (each costs the whole watchdog time)")
                 break
             feats = {"exec": 4} if rng.random() < 0.35 else None
             spec = wfgen.gen_spec(rng, size=rng.randint(2, 12), features=feats)
@@ -128,7 +132,8 @@ class C04(Property):
                 failing = False
             run_spec = fspec or spec
             seeds = [rng.randrange(1 << 30) for _ in range(k)]
-            runs = wfcheck.run_schedules(run_spec, seeds, ctx.scratch, timeout=30.0)
+            runs = wfcheck.run_schedules(run_spec, seeds, ctx.scratch, timeout=20.0)
+            hangs += sum(1 for r in runs if r["outcome"]["kind"] == "hang")
             fail_node = _fail_node(run_spec)
             key = ("wf", json.dumps(run_spec, sort_keys=True)) if len(spec["nodes"]) >= 3 else None
             ctx.case({"spec": run_spec, "failing": failing, "outcomes": [r["outcome"]["kind"] for r in runs],
